@@ -882,6 +882,21 @@ def run(tier):
         for a in range(0, len(scases), 1500):
             pass
         rep.cov["sweep_families"] = sorted({c[2].split(":")[0] for c in scases})
+        # 3a'. error records built from long caller-supplied text (paths, column names of 150..400 characters)
+        lens = sorted(set(list(range(150, 401, 10)) + list(range(226, 262)) + [255, 256, 257, 300, 400]))
+        sp = tmp / "longerr_seed.parquet"
+        sp.write_bytes(byname[cq_first])
+        llines = [f"longerr {n} {sp}" for n in lens]
+        lout, lprobs = run_sharded(drv, llines, env=ENV)
+        for pr in lprobs:
+            rep.tie_broken(f"driver process died outside a forked case (rc={pr[1]}): {pr[2][-300:]}", pr[3])
+        for li, o in zip(llines, lout):
+            rep.count(li)
+            stats[classify(o)] = stats.get(classify(o), 0) + 1
+            if not o.startswith("OK"):
+                rep.violation(f"a call that fails on a long caller-supplied path / column name does not leave a non-OK code and a "
+                              f"message terminated inside its array: {o[:200]}", {"op": "longerr", "case": li}, key="C04:baderr-long-text")
+        rep.cov["long_text_cases"] = len(llines)
         # 3b. random mutants
         nmut = 8000 if tier == "quick" else 60000
         cases = []
@@ -923,6 +938,19 @@ def run(tier):
 def replay(path):
     j = json.loads(Path(path).read_text())
     r = j.get("replay", j)
+    if r.get("op") == "longerr":
+        drv = build_driver("h_robust", extra=WRAP)
+        tmp = tmpdir()
+        try:
+            rng = random.Random(1)
+            sp = tmp / "seed.parquet"
+            out, _ = run_sharded(drv, [f"gen a:0:20:1:3 {sp}"])
+            toks = r["case"].split()
+            out, rc, err = vlib.run_lines(drv, [f"longerr {toks[1]} {sp}"], env=ENV)
+            print("case:", r["case"], "\nimplementation:", out)
+            return 0 if out and out[0].startswith("OK") else 1
+        finally:
+            shutil.rmtree(tmp, ignore_errors=True)
     if "file_hex" not in r:
         print(json.dumps(j, indent=1)[:3000])
         return 1
